@@ -478,20 +478,20 @@ theorem oblique_jump_at_containment (ε : Rat) (hε : 0 < ε) (h3 : ε ≠ 3) :
     snapObliqueLit ⟨⟨0, 0⟩, ⟨4, 2⟩, false⟩ ⟨1, 2 + ε⟩ ⟨1, 5⟩ = .ok ⟨7/4, 2⟩ :=
   ⟨snapObliqueLit_on_border, snapObliqueLit_jump_outside ε hε h3⟩
 
-/-- The full statement "the closest-side snap of a source outside the box ends on the side facing the source", which the
-code does not satisfy … -/
-def closest_snap_faces_source_full : Prop :=
-  ∀ (b : Box) (s q : V2), 0 < b.size.x → 0 < b.size.y → ¬ inBox b s → snapClosest b s = .ok q →
-    0 < (q - b.center).dot (s - b.center)
+/-- The closest-side snap (`Box.vector_snap(point)` without a source, or with `point == source`) of any point other than
+the centre ends on the ray from the centre towards that point: the side chosen faces the source, for every direction, the
+four diagonals through the corners included (there the two neighbouring sides meet in the corner facing the source).
+Holds since /repo `alpha <= angle` (before, a source exactly on the diagonal beyond the top-right corner was snapped to the
+bottom-left corner: the former declared jump `closest:diagonal-top-right`). -/
+theorem closest_snap_faces_source (b : Box) (s q : V2) (hw : 0 < b.size.x) (hh : 0 < b.size.y) (hc : s ≠ b.center)
+    (h : snapClosest b s = .ok q) : 0 < (q - b.center).dot (s - b.center) :=
+  snapClosest_faces_source b s q hw hh hc h
 
-/-- … declared jump `closest:diagonal-top-right` (known finding): a source exactly on the diagonal beyond the top-right
-corner is snapped to the bottom-left corner (`Box((0,0),(2,2)).vector_snap((3,-1)) = (0, 2)`); any source beside the
-diagonal is snapped to the near corner region, so this is a jump by the whole diagonal. -/
-theorem closest_snap_faces_source_full_fails : ¬ closest_snap_faces_source_full := by
-  intro h
-  have := h ⟨⟨0, 0⟩, ⟨2, 2⟩, false⟩ ⟨3, -1⟩ ⟨0, 2⟩ (by decide +kernel) (by decide +kernel) (by decide +kernel) (by decide +kernel)
-  revert this
-  decide +kernel
+/-- The full statement "the closest-side snap of a source outside the box ends on the side facing the source" (the one the
+code did not satisfy before the repair; its former witness was `Box((0,0),(2,2)).vector_snap((3,-1)) = (0, 2)`). -/
+theorem closest_snap_faces_source_full (b : Box) (s q : V2) (hw : 0 < b.size.x) (hh : 0 < b.size.y) (hout : ¬ inBox b s)
+    (h : snapClosest b s = .ok q) : 0 < (q - b.center).dot (s - b.center) :=
+  closest_snap_faces_source b s q hw hh (fun e => hout (e ▸ center_inBox b hw hh)) h
 
 /-! ## Non-vacuity -/
 
@@ -499,9 +499,11 @@ theorem closest_snap_faces_source_full_fails : ¬ closest_snap_faces_source_full
 example : vectorSnap ⟨⟨0, 0⟩, ⟨10, 10⟩, false⟩ ⟨5, 5⟩ ⟨-5, -5⟩ .oblique = .ok ⟨0, 0⟩ := by decide +kernel
 -- the call that used to fail `assert direction.x or direction.y` (source in the centre, point outside)
 example : vectorSnap ⟨⟨0, 0⟩, ⟨2, 2⟩, false⟩ ⟨-1, -1⟩ ⟨1, 1⟩ .oblique = .ok ⟨0, 0⟩ := by decide +kernel
--- an ordinary oblique snap with a non-integer answer, and the closest snap on a diagonal (far corner)
+-- an ordinary oblique snap with a non-integer answer, and the closest snap on the diagonal through the top-right corner
+-- (the near corner since the repair of `alpha <= angle`; it was the far corner `(0, 2)` before)
 example : vectorSnap ⟨⟨0, 0⟩, ⟨4, 2⟩, false⟩ ⟨2, 1⟩ ⟨5, 5⟩ .oblique = .ok ⟨11/4, 2⟩ := by decide +kernel
-example : vectorSnap ⟨⟨0, 0⟩, ⟨4, 2⟩, false⟩ ⟨6, -1⟩ ⟨6, -1⟩ .oblique = .ok ⟨0, 2⟩ := by decide +kernel
+example : vectorSnap ⟨⟨0, 0⟩, ⟨4, 2⟩, false⟩ ⟨6, -1⟩ ⟨6, -1⟩ .oblique = .ok ⟨4, 0⟩ := by decide +kernel
+example : snapClosest ⟨⟨0, 0⟩, ⟨2, 2⟩, false⟩ ⟨3, -1⟩ = .ok ⟨2, 0⟩ := by decide +kernel
 -- Manhattan: port and non-port differ
 example : vectorSnap ⟨⟨0, 0⟩, ⟨4, 2⟩, false⟩ ⟨3, 1/2⟩ ⟨9, 1⟩ .manhattan = .ok ⟨4, 1/2⟩ := by decide +kernel
 example : vectorSnap ⟨⟨0, 0⟩, ⟨4, 2⟩, true⟩ ⟨3, 1/2⟩ ⟨9, 1⟩ .manhattan = .ok ⟨4, 1⟩ := by decide +kernel
